@@ -101,7 +101,7 @@ def make_reply(spec):
     if isinstance(spec.get("replies"), dict):
         rep = dict(spec["replies"])
     else:
-        rep = {"messages": list(spec.get("replies") or [""])}
+        rep = {"messages": list(spec["replies"]) if spec.get("replies") is not None else [""]}
     if spec.get("read_requests") is not None:
         rep["read_requests"] = spec["read_requests"]
     return rep
